@@ -55,20 +55,25 @@ var triggers = []trigger{
 		// MVP-6.1+: instructions in the shadow of a taken conditional branch whose
 		// operand is slow start executing; register writes are rolled back from
 		// MVP-6.2 on (6.2 with one slot per register, so an older uncommitted write
-		// to the same register is lost), stores are never rolled back.
+		// to the same register is lost), stores are never rolled back, and a
+		// younger branch/jump inside the shadow that resolves first commits the
+		// older shadow writes (one shared expectation in the branch unit).
 		id: "KF-W3", props: wmProps,
 		match: func(c *core.Case, f *features, class string) bool {
 			v := c.Cfg.V
 			if v < mach.MVP61 || f.takenBranches == 0 || !isMismatch(class) {
 				return false
 			}
+			// nested: a younger branch or jump in the shadow resolves first and its
+			// commit/rollback makes the older shadow writes architectural
+			nested := f.shadowHasWork && f.shadowHasTrap
 			switch v {
 			case mach.MVP61:
 				return f.shadowHasWork
 			case mach.MVP62:
-				return f.shadowHasWork && (f.regRewrittenAroundBranch || f.shadowHasStore)
+				return nested || (f.shadowHasWork && (f.regRewrittenAroundBranch || f.shadowHasStore))
 			}
-			return f.shadowHasStore
+			return nested || f.shadowHasStore
 		},
 	},
 	{
@@ -79,7 +84,7 @@ var triggers = []trigger{
 		// derails it.
 		id: "KF-W7", props: wmProps,
 		match: func(c *core.Case, f *features, class string) bool {
-			return c.Cfg.V >= mach.MVP61 && c.Cfg.Parallelism() >= 2 && f.takenBranches >= 1 && f.shadowHasTrap
+			return c.Cfg.V >= mach.MVP61 && c.Cfg.Parallelism() >= 2 && f.takenBranches >= 1 && f.shadowHasErrTrap
 		},
 	},
 	{
